@@ -70,7 +70,7 @@ def any_dependency_to_module_other_than(
         nodes_to_exclude.add(dependent.identifier)
 
     for dependent_upon in dependent_upons:
-        if dependent_upon.identifier_is_parent_module:
+        if dependent_upon.identifier_is_parent_module and dependent_upon != dependent:
             # if there is a dependency to the parent module of dependent upon, this counts, as only dependencies to
             # the true submodules are excluded
             # reason: if something imports B, then it imports something that is not B.X (and B.X is a dependent_upon module)
